@@ -437,6 +437,9 @@ class UTPM(Ring, RawAlgorithmsMixIn):
 
     def __pow__(self,r):
         if isinstance(r, UTPM):
+            if numpy.iscomplexobj(r.data) and not numpy.iscomplexobj(self.data):
+                # principal branch for a real base with a complex exponent
+                self = UTPM(self.data.astype(numpy.result_type(self.data.dtype, r.data.dtype)))
             return UTPM.exp(UTPM.log(self)*r)
         else:
             x_data = self.data
@@ -456,7 +459,9 @@ class UTPM(Ring, RawAlgorithmsMixIn):
         if r.dtype == object and r.ndim == 0 and isinstance(r[()], int):
             # a Python int beyond 64 bits
             r = numpy.asarray(float(r[()]))
-        logr = numpy.log(r.astype(numpy.result_type(r.dtype, numpy.float64)))
+        # (in complex arithmetic when the exponent is complex: principal branch
+        # of a negative base)
+        logr = numpy.log(r.astype(numpy.result_type(r.dtype, numpy.float64, self.data.dtype)))
         if logr.ndim == 0:
             logr = logr[()]
         return UTPM.exp(logr*self)
